@@ -69,6 +69,8 @@ type Ctx struct {
 	start     time.Time
 	funcDecls map[*types.Func]*ast.FuncDecl
 	declPkg   map[*types.Func]*packages.Package
+	varInits  map[*types.Var]ast.Expr
+	varPkg    map[*types.Var]*packages.Package
 }
 
 // Load loads every package of the repository with syntax, types and SSA.
@@ -127,6 +129,8 @@ func Load(repo string) (*Ctx, error) {
 	}
 	c.funcDecls = map[*types.Func]*ast.FuncDecl{}
 	c.declPkg = map[*types.Func]*packages.Package{}
+	c.varInits = map[*types.Var]ast.Expr{}
+	c.varPkg = map[*types.Var]*packages.Package{}
 	for _, p := range c.All {
 		if !strings.HasPrefix(p.PkgPath, ModPath) {
 			continue
@@ -139,10 +143,29 @@ func Load(repo string) (*Ctx, error) {
 						c.declPkg[obj] = p
 					}
 				}
+				if gd, ok := d.(*ast.GenDecl); ok && gd.Tok == token.VAR {
+					for _, sp := range gd.Specs {
+						vs := sp.(*ast.ValueSpec)
+						if len(vs.Values) != len(vs.Names) {
+							continue
+						}
+						for i, n := range vs.Names {
+							if obj, ok := p.TypesInfo.Defs[n].(*types.Var); ok {
+								c.varInits[obj] = vs.Values[i]
+								c.varPkg[obj] = p
+							}
+						}
+					}
+				}
 			}
 		}
 	}
 	return c, nil
+}
+
+// VarInit returns the initialiser of a repository package-level variable.
+func (c *Ctx) VarInit(v *types.Var) (ast.Expr, *packages.Package) {
+	return c.varInits[v], c.varPkg[v]
 }
 
 // FuncDecl returns the syntax of a repository function.
